@@ -10,6 +10,7 @@ import torch
 from vlib.geom import sym_grid
 
 PROPERTY = "C19"
+TECHNIQUE = 'enumeration of a catalogue of tensor programs; per program a z3 non-interference query over symbolic voxels of three images with distinct symbolic grids'
 EXPLANATION = (
     "Bounded symbolic execution + SMT over an enumerated catalogue of torch programs. Batches of three images (and flow fields) with three "
     "distinct symbolic grids and free symbolic voxels are pushed through each program via the real __torch_function__ / __getitem__ / "
